@@ -711,3 +711,18 @@ Definition table_try_into_m (tt : list (N * str)) (e : enum) :=
 
 Definition rich (A : Type) (f : enum -> expansion A) (e : renum) : expansion A :=
   match lower_enum e with Some e' => f e' | None => EErr end.
+
+(* ------------------------------------------------------------------ the Self type of a TryFrom impl *)
+
+(** try_into.rs:110, the Self type [for ( <reference_with_lifetime original_types>, .. )]: a list of two or more types is a tuple
+    type; a ONE-element list is a parenthesised type, i.e. the type itself - which may in turn be a tuple type
+    ([tuple_of t] = its components). With a reference kind the single type is [&T], never a tuple. *)
+Inductive rendered := RSingle (t : N) | RTuple (ts : list N).
+Definition target (tuple_of : N -> option (list N)) (m : smode) (tys : list N) : rendered :=
+  match tys with
+  | [t] => match m, tuple_of t with
+           | MMove, Some l => RTuple l
+           | _, _ => RSingle t
+           end
+  | _ => RTuple tys
+  end.
